@@ -42,7 +42,7 @@ POOL = [
     "{ int32_t n = RsV; n++; RdV = n; break; }",         # fails at the end
 ]
 PROBES = [0, 1, 2, 3, 4, 5, 6, 7, 8, 9, 10, 11, 12, 13]
-ENTRIES = ("stmt", "insn")
+ENTRIES = ("stmt", "insn", "cinsn")
 
 
 def normalise(text):
@@ -65,7 +65,12 @@ def _do(c, text, entry):
             code = c.compile_c_stmt(text)
             return ("ok", code, None)
         ast = c.parser.parse(text)
-        r = c.transform_insn("vf_hist", ParsedInsn("vf_hist", [ast], [text]))
+        if entry == "cinsn":
+            # the third public entry point: compile_insn(name) on the instance's parsed_insns registry
+            c.parsed_insns["vf_hist"] = ParsedInsn("vf_hist", [ast], [text])
+            r = c.compile_insn("vf_hist")
+        else:
+            r = c.transform_insn("vf_hist", ParsedInsn("vf_hist", [ast], [text]))
         return ("ok", r.rzil[0], list(r.meta[0]))
     except Exception as e:  # noqa
         return ("exc", type(e).__name__)
@@ -106,6 +111,42 @@ def _history(item):
     return (hist, probe, _do(I[inst], POOL[idx], entry))
 
 
+# persistent state that may legitimately differ after a call (none of it can change a result: histories (b) check that)
+FP_WHITELIST = {"hybrid_op_count", "missing_fcns", "compiled_insns", "parsed_insns", "sub_routines", "behaviors", "patched_macros",
+                "preprocessor", "parser", "transformer", "il_ops_holder", "ext"}
+
+
+def _is_pure_typed(x):
+    try:
+        from rzilcompiler.Transformer.ValueType import VTGroup
+        return bool(x.value_type.group & VTGroup.PURE)
+    except Exception:
+        return True
+
+
+def _snap(v, depth=0):
+    import enum
+    if isinstance(v, (bool, int, str, float, type(None))):
+        return v
+    if isinstance(v, enum.Enum):
+        return str(v)
+    if type(v).__name__ == "count":  # itertools.count
+        return repr(v)
+    if isinstance(v, dict):
+        out = {}
+        for k, x in v.items():
+            prim = {a: b for a, b in vars(x).items() if isinstance(b, (bool, int, str))} if hasattr(x, "__dict__") and depth == 0 else type(x).__name__
+            if isinstance(prim, dict) and "reads" in prim and not _is_pure_typed(x):
+                del prim["reads"]  # Parameter.il_read consults the counter only for PURE-typed parameters (pkt / hi / bundle are external)
+            out[str(k)] = prim
+        return dict(sorted(out.items()))
+    if isinstance(v, (set, frozenset)):
+        return sorted(str(x) for x in v)
+    if isinstance(v, (list, tuple)):
+        return [_snap(x, depth + 1) if depth < 1 else type(x).__name__ for x in v][:64]
+    return type(v).__name__
+
+
 def footprint(c):
     """Reflected persistent state of a Compiler and of the class-level mutables of the package."""
     from rzilcompiler.HexagonExtensions import HexagonTransformerExtension
@@ -115,21 +156,25 @@ def footprint(c):
     h = t.il_ops_holder
     e = t.ext
     fp = {
-        "holder.read_ops": sorted(h.read_ops), "holder.exec_ops": sorted(h.exec_ops), "holder.write_ops": sorted(h.write_ops),
-        "holder.let_ops": sorted(h.let_ops), "holder.hybrid_effect_dict": sorted(h.hybrid_effect_dict), "holder.op_count": h.op_count,
-        "imm_set_effect_list": len(t.imm_set_effect_list),
-        "ext.flags": [e.uses_new, e.writes_mem, e.reads_mem, e.is_conditional, e.branches, e.writes_predicate],
-        "ext.preds_written": list(e.preds_written),
+        "ext.preds_written": list(getattr(e, "preds_written", [])),
         "class.preds_written": list(HexagonTransformerExtension.__dict__.get("preds_written", [])),
         "sub_routines": sorted(Compiler.sub_routines),
         # the HYBRID_LVAR bit that resolve_hybrid ORs into a registered sub-routine's return type on its first call is whitelisted
         # (idempotent; histories (b) show it does not change any result)
         "sub_routine.types": {n: (str(s.value_type), s.value_type.group.value & ~4, [(str(p.value_type), p.value_type.group.value) for p in s.ops])
                               for n, s in sorted(Compiler.sub_routines.items())},
-        "macros": sorted(t.macros), "parameters": sorted(t.parameters), "param.reads": {k: 0 for k in t.parameters},
         "noped": list(c.noped_insns), "behaviors": len(PreprocessorHexagon.behaviors), "patched_macros": len(PreprocessorHexagon.patched_macros),
-        "code_format": str(t.code_format), "return_type": str(t.return_type),
     }
+    # generic reflection (no attribute names of the implementation are assumed): every instance attribute of the transformer,
+    # its operand holder and its extension, and every mutable class-level attribute of their classes
+    for tag, obj in (("transformer", t), ("holder", h), ("ext", e), ("compiler", c)):
+        for k, v in sorted(vars(obj).items()):
+            if k not in FP_WHITELIST:
+                fp[f"{tag}.{k}"] = _snap(v)
+        for cls in type(obj).__mro__[:-1]:
+            for k, v in sorted(vars(cls).items()):
+                if isinstance(v, (list, dict, set)) and k not in FP_WHITELIST:
+                    fp[f"class:{cls.__name__}.{k}"] = _snap(v)
     return fp
 
 
@@ -165,7 +210,7 @@ def run(tier):
     if not thorough:
         pairs = rng.sample(pairs, 400)
     for s1, s2 in pairs:
-        for p in (probes if thorough else rng.sample(probes, 4)):
+        for p in rng.sample(probes, min(len(probes), 7 if thorough else 4)):
             items.append(([s1, s2], p))
     if thorough:
         for _ in range(3000):
@@ -215,8 +260,8 @@ def run(tier):
     rep.coverage.update(
         states=len(states), transitions=transitions, traces_validated_against_impl=len(results),
         explanation="histories are executed on the real code (the implementation IS the transition function); pool of 14 behaviours + 7 "
-                    "failing inputs x entry points {compile_c_stmt, transform_insn} x two Compiler instances in one process; all histories "
-                    "of length 0 and 1, " + ("all" if thorough else "400 seeded") + " of length 2" + (", 3000 seeded of length 3" if thorough else "")
+                    "failing inputs x entry points {compile_c_stmt, transform_insn, compile_insn} x two Compiler instances in one process; all histories "
+                    "of length 0 and 1, " + ("all ordered pairs of steps" if thorough else "400 seeded pairs") + " as histories of length 2 (each with " + ("7" if thorough else "4") + " seeded probes)" + (", 3000 seeded of length 3" if thorough else "")
                     + ", each followed by probes compared with a fresh process; footprint step over every (input, entry point)",
         pool=POOL, conditions_confirmed=nconf, footprint_steps_clean=nfp, histories_agreeing=nhist_ok,
         bounds=dict(history_length="<= 2 (quick sample) / <= 3 (thorough)", instances=2, pool=len(POOL)))
@@ -225,4 +270,4 @@ def run(tier):
     rep.assumptions = ["whitelisted persistent state: temporary counter (hybrid_op_count), missing_fcns statistics, compiled_insns registry, "
                        "the HYBRID_LVAR bit OR'ed into a registered sub-routine's return type on its first call",
                        "histories longer than the bound rely on the footprint argument (c) and on the inductive step (a)"]
-    return rep.finish({"histories agreeing": (nhist_ok, int(len(results) * 0.9)), "footprint steps": (nfp, 28)})
+    return rep.finish({"histories agreeing": (nhist_ok, int(len(results) * 0.9)), "footprint steps": (nfp, 40)})
